@@ -215,6 +215,26 @@ class TokenTable:
         return [tab.get(data[i:i + 1].tobytes(), 0) for i in range(data.size)]
 
 
+def cols_tokens(table, data, base, order, text):
+    """a column-subset result (rows of some fields of the file) -> tokens: a row matches the token whose concrete row
+    has the same bytes in those fields; 0 = no written row has them"""
+    names = list(data.dtype.names or ())
+    if base == "?" or not names:
+        return [0] * int(data.size)
+    order = order if order != "na" else NATIVE
+    tab = {}
+    for t in sorted(table.tokens_by_base.get(base, ())):
+        row = concrete_row(table.seed, table.fam, base, order, t, text)
+        if any(n not in row.dtype.names for n in names):
+            return [0] * int(data.size)
+        key = b"|".join(row[n].tobytes() for n in names)
+        if key in tab:
+            raise RuntimeError("token concretisation not injective on columns %s: %s %s" % (names, tab[key], t))
+        tab[key] = t
+    data = np.ascontiguousarray(data).reshape(-1)
+    return [tab.get(b"|".join(data[n][i:i + 1].tobytes() for n in names), 0) for i in range(data.size)]
+
+
 def tokens_by_base(events):
     out = {}
     for e in events:
@@ -252,11 +272,20 @@ def _process_dir():
     return _SESSION["dir"]
 
 
-class World:
-    """executes abstract events on the real esutil inside a private directory"""
+READ_SELS = ("all", "first", "head", "cols")
+LIBS = ("sfile", "recfile")
 
-    def __init__(self, seed, fam, npaths=2, writer=0, reader=0, headers=HEADERS):
+
+class World:
+    """executes abstract events on the real esutil inside a private directory.
+
+    A handle id is one handle *object* (an SFile, or with lib='recfile' a bare recfile.Recfile) for the whole trace:
+    the first `open` event on it constructs it, later ones call its .open() again - whether it is closed or still
+    open (reuse=False: a new object for every open, the old one closed first)."""
+
+    def __init__(self, seed, fam, npaths=2, writer=0, reader=0, headers=HEADERS, lib="sfile", reuse=True):
         self.seed, self.fam = seed, fam
+        self.lib, self.reuse = lib, reuse
         self.root = _process_dir()
         self.paths = {p: os.path.join(self.root, "f%d.rec" % p) for p in range(1, npaths + 1)}
         # the NAME a writing call is given for path p: plain, or with the shortcuts the library documents
@@ -264,12 +293,15 @@ class World:
         os.environ["VHRSDIR"] = self.root
         os.environ["HOME"] = self.root
         style = {p: (seed + 3 * p + writer) % 4 for p in self.paths}
-        self.names = {p: (self.paths[p] if style[p] < 2 else
+        self.names = {p: (self.paths[p] if style[p] < 2 or lib != "sfile" else
                           "$VHRSDIR/f%d.rec" % p if style[p] == 2 else "~/f%d.rec" % p) for p in self.paths}
         self._wipe()
-        self.handles = {}
+        self.objects = {}                   # handle id -> the object (kept when closed)
+        self.handles = {}                   # handle id -> the object, while it is open
         self.htext = {}
         self.hpath = {}
+        self.hmode = {}
+        self.bare = {}                      # lib='recfile': path -> (descr, delim id) the caller has to remember
         self.writer, self.reader = writer, reader
         self.headers = headers
         self.table = None
@@ -283,7 +315,7 @@ class World:
                 pass
 
     def close(self):
-        for sf in self.handles.values():
+        for sf in self.objects.values():
             try:
                 sf.close()
             except Exception:  # noqa
@@ -293,14 +325,41 @@ class World:
     def in_scope(self, e):
         """the call is one the specification speaks about, given which handles really are open
         (a behaviour of the model that continues after an outcome the real code did not take is cut here)"""
-        busy = set(self.hpath.values())
-        if e["op"] == "open":
-            return e["h"] not in self.handles and e["p"] not in busy
-        if e["op"] in ("hwrite", "hread", "hclose"):
-            return e["h"] in self.handles
-        if e["op"] in ("write", "append"):
-            return e["p"] not in busy
+        op = e["op"]
+        if op == "open":
+            ok = e["p"] not in {q for h, q in self.hpath.items() if h != e["h"]}
+        elif op == "hwrite":
+            ok = e["h"] in self.handles and self.hmode[e["h"]] != "r"
+        elif op in ("hread", "hclose"):
+            ok = e["h"] in self.handles
+        elif op in ("write", "append"):
+            ok = e["p"] not in set(self.hpath.values())
+        else:
+            ok = True
+        return ok and (self.lib == "sfile" or self._bare_admissible(e))
+
+    # -- bare recfile: no header, no stored dtype - the calls a caller who remembers the dtype can make -----------
+    def _bare_admissible(self, e):
+        op = e["op"]
+        if op == "readhdr" or e["hdr"] != "none":
+            return False
+        p = self.hpath.get(e["h"]) if op in ("hwrite", "hread", "hclose") else e["p"]
+        known = self.bare.get(p)
+        if op == "open":
+            return e["mode"] in ("w", "w+") or known is not None or e["mode"] == "r+"
+        if op == "hwrite" or op == "append":
+            if known is None:
+                return op == "hwrite"                      # first write through a creating handle
+            text = known[1] != "none"
+            same = e["chunk"]["descr"][0] == known[0][0] and (text or e["chunk"]["descr"][1] == known[0][1])
+            return same                                    # nothing records the fields: only matching chunks
+        if op in ("hread", "read"):
+            return known is not None
         return True
+
+    def _bare_dtype(self, p):
+        d, dl = self.bare[p]
+        return dtype_of(self.fam, d[0], d[1] if dl == "none" else "na"), dl
 
     # -- projections -----------------------------------------------------------------------
     def raw(self, p):
@@ -310,19 +369,42 @@ class World:
         except FileNotFoundError:
             return None
 
-    def _project(self, data, hdr):
-        """(array, header dict) as returned by a reader -> the res/obs fields"""
+    def _project(self, data, hdr, sel="all", full=None):
+        """(array, header dict) as returned by a reader -> the res/obs fields (full: dtype of the whole row, for the
+        result of a column-subset read)"""
         dl = hdr.get("_DELIM") if isinstance(hdr, dict) else None
         text = dl is not None
-        did = descr_id(self.fam, data.dtype, text)
         size = hdr.get("_SIZE", -1) if isinstance(hdr, dict) else -1
+        if sel == "cols":
+            fd = descr_id(self.fam, full, text) if full is not None else ["?", "na"]
+            did, rows = ["cols", "na"], cols_tokens(self.table, data, fd[0], fd[1], text)
+        else:
+            did = descr_id(self.fam, data.dtype, text)
+            rows = self.table.tokens(data, did, text)
         return {"delim": DELIM_IDS.get(dl, "?"), "hdr": header_id(hdr, self.headers), "descr": did,
                 "size": int(size) if isinstance(size, (int, np.integer)) and not isinstance(size, bool) else -1,
-                "rows": self.table.tokens(data, did, text)}
+                "rows": rows}
 
-    def _fresh_read(self, path, which):
+    def _bare_hdr(self, p, n):
+        """what a bare record file 'stores' besides the rows: nothing - the delimiter is the caller's, the count the reader's"""
+        dl = DELIMS[self.bare[p][1]]
+        h = {"_SIZE": int(n)}
+        if dl is not None:
+            h["_DELIM"] = dl
+        return h
+
+    def _fresh_read(self, path, which, p=None):
         import esutil
         from esutil import sfile
+        if self.lib == "recfile":
+            from esutil import recfile
+            dt, dl = self._bare_dtype(p)
+            if which % 2:
+                data = recfile.read(path, dt, delim=DELIMS[dl])
+            else:
+                with recfile.Recfile(path, mode="r", dtype=dt, delim=DELIMS[dl]) as robj:
+                    data = robj[:]
+            return data, self._bare_hdr(p, data.size)
         r = READERS[which % len(READERS)]
         if r == "sfile.read":
             return sfile.read(path, header=True)
@@ -336,11 +418,11 @@ class World:
         path = self.paths[p]
         if not os.path.exists(path):
             return dict(UNOBSERVED, st="missing")
-        if os.path.getsize(path) == 0:
+        if os.path.getsize(path) == 0 or (self.lib == "recfile" and p not in self.bare):
             return dict(UNOBSERVED, st="blank")
         self.nread += 1
         try:
-            data, hdr = self._fresh_read(path, self.reader + self.nread)
+            data, hdr = self._fresh_read(path, self.reader + self.nread, p)
             return dict(self._project(data, hdr), st="ok")
         except Exception as ex:  # noqa
             return dict(UNOBSERVED, st="unreadable", exc="%s: %s" % (type(ex).__name__, str(ex)[:120]))
@@ -351,38 +433,99 @@ class World:
 
     def _file_is_text(self, p):
         """whether path p currently holds a text file (decides only which *values* the chunk gets)"""
+        if self.lib == "recfile":
+            return p in self.bare and self.bare[p][1] != "none"
         b = self.raw(p)
         return bool(b) and b"'_DELIM'" in b.split(b"END\n", 1)[0]
+
+    def _open(self, e, before):
+        """construct the handle object of id h, or open the existing one again"""
+        from esutil import sfile, recfile
+        h, p, mode = e["h"], e["p"], e["mode"]
+        self.handles.pop(h, None)                       # whatever happens the object first closes what it has open
+        self.hpath.pop(h, None)
+        if self.lib == "recfile":
+            kw = {"delim": DELIMS[e["delim"]]}
+            if mode[0] == "r":
+                dt, dl = self._bare_dtype(p) if p in self.bare else (dtype_of(self.fam, "D", "lt"), e["delim"])
+                kw = {"delim": DELIMS[dl], "dtype": dt}
+            make = lambda: recfile.Recfile(self.names[p], mode=mode, **kw)    # noqa
+        else:
+            kw = {"delim": DELIMS[e["delim"]]}
+            make = lambda: sfile.SFile(self.names[p], mode=mode, **kw)        # noqa
+        obj = self.objects.get(h)
+        try:
+            if obj is not None and self.reuse:
+                obj.open(self.names[p], mode=mode, **kw)
+            else:
+                if obj is not None:
+                    obj.close()
+                obj = make()
+                self.objects[h] = obj
+        except Exception:
+            if obj is not None:
+                try:
+                    obj.close()                         # a rejected (re-)open leaves the object closed
+                except Exception:  # noqa
+                    pass
+            raise
+        # (the file as it is now: a re-open first closed - flushed - what the object had open, maybe on this very path)
+        now = self.raw(p)
+        if mode == "r" and not now:
+            obj.close()                                 # "opened" something that is not a record file: not used further
+            return obj, False
+        # which *values* later chunks get (benign for text): from the file when it is appended to
+        self.htext[h] = self._file_is_text(p) if mode in ("r", "r+") and now else e["delim"] != "none"
+        if self.lib == "recfile" and mode in ("w", "w+"):
+            self.bare.pop(p, None)
+        self.handles[h], self.hpath[h], self.hmode[h] = obj, p, mode
+        return obj, True
+
+    def _hread(self, e):
+        h, sel = e["h"], e.get("sel", "all")
+        obj, p = self.handles[h], self.hpath[h]
+        alt = (self.reader + h) % 2
+        full = obj.dtype
+        names = list(full.names[:2]) if full is not None and full.names else []
+        if sel == "all":
+            data = obj[:] if alt else obj.read()
+        elif sel == "first":
+            data = obj.read(rows=[0])
+        elif sel == "head":
+            data = obj[0:2]
+        elif sel == "cols":
+            data = obj.read(rows=[0], columns=names)
+        else:
+            raise RuntimeError("unknown selection " + sel)
+        hdr = self._bare_hdr(p, obj.nrows) if self.lib == "recfile" else obj.get_header()
+        return self._project(data, hdr, sel=sel, full=full)
 
     def execute(self, e, observe=True, last=False):
         """run one abstract event; returns the event completed with res / obs / rawsame"""
         import esutil
-        from esutil import sfile
+        from esutil import sfile, recfile
         op = e["op"]
         before = {p: self.raw(p) for p in self.paths}
         res = dict(NO_RES)
         exc = None
         try:
             if op == "open":
-                # which *values* later chunks get (benign for text): from the file when it is appended to
-                appending = e["mode"] == "r+" and bool(before[e["p"]])
-                self.htext[e["h"]] = self._file_is_text(e["p"]) if appending else e["delim"] != "none"
-                sf = sfile.SFile(self.names[e["p"]], mode=e["mode"], delim=DELIMS[e["delim"]])
-                self.handles[e["h"]] = sf
-                self.hpath[e["h"]] = e["p"]
-                res["size"] = self._hcount(sf)
+                obj, opened = self._open(e, before)
+                if opened:
+                    res["size"] = self._hcount(obj)
             elif op == "hwrite":
-                sf = self.handles[e["h"]]
+                sf, p = self.handles[e["h"]], self.hpath[e["h"]]
                 arr = self._array(e, self.htext[e["h"]])
                 if e["hdr"] == "none":
                     sf.write(arr)
                 else:
                     sf.write(arr, header=self.headers[e["hdr"]])
+                if self.lib == "recfile" and p not in self.bare:
+                    dl = DELIM_IDS.get(sf.delim, "?")
+                    self.bare[p] = (e["chunk"]["descr"] if dl == "none" else [e["chunk"]["descr"][0], "na"], dl)
                 res["size"] = self._hcount(sf)
             elif op == "hread":
-                sf = self.handles[e["h"]]
-                data = sf.read() if (self.reader + e["h"]) % 2 == 0 else sf[:]
-                res.update(self._project(data, sf.get_header()))
+                res.update(self._hread(e))
             elif op == "hclose":
                 self.hpath.pop(e["h"], None)
                 self.handles.pop(e["h"]).close()
@@ -398,17 +541,25 @@ class World:
                     kw["header"] = self.headers[e["hdr"]]
                 if e["delim"] != "none":
                     kw["delim"] = DELIMS[e["delim"]]
-                if op == "append":
-                    kw["append"] = True
-                w = WRITERS[self.writer % len(WRITERS)]
-                if w == "sfile.write":
-                    sfile.write(path, arr, **kw)
-                elif w == "io.write":
-                    esutil.io.write(path, arr, **kw)
+                if self.lib == "recfile":
+                    if op == "append":
+                        dt, dl = self._bare_dtype(e["p"])
+                        recfile.write(path, arr, mode="r+", dtype=dt, delim=DELIMS[dl])
+                    else:
+                        recfile.write(path, arr, mode="w", **kw)
+                        self.bare[e["p"]] = (e["chunk"]["descr"] if not text else [e["chunk"]["descr"][0], "na"], e["delim"])
                 else:
-                    sfile.write(arr, path, **kw)
+                    if op == "append":
+                        kw["append"] = True
+                    w = WRITERS[self.writer % len(WRITERS)]
+                    if w == "sfile.write":
+                        sfile.write(path, arr, **kw)
+                    elif w == "io.write":
+                        esutil.io.write(path, arr, **kw)
+                    else:
+                        sfile.write(arr, path, **kw)
             elif op == "read":
-                data, hdr = self._fresh_read(self.paths[e["p"]], self.reader)
+                data, hdr = self._fresh_read(self.paths[e["p"]], self.reader, e["p"])
                 res.update(self._project(data, hdr))
             elif op == "readhdr":
                 hdr = sfile.read_header(self.paths[e["p"]]) if self.reader % 2 == 0 else \
@@ -422,10 +573,8 @@ class World:
         except Exception as ex:  # noqa  (any exception of the call = "rejected")
             res = dict(NO_RES, err="rejected")
             exc = "%s: %s" % (type(ex).__name__, str(ex)[:160])
-            if op == "open":
-                self.handles.pop(e["h"], None)
-                self.hpath.pop(e["h"], None)
         out = dict(e)
+        out.setdefault("sel", "all")
         out["res"] = res
         if exc:
             out["exc"] = exc
@@ -434,8 +583,7 @@ class World:
         out["rawsame"] = [self.raw(p) == before[p] for p in sorted(self.paths)]
         return out
 
-    @staticmethod
-    def _hcount(sf):
+    def _hcount(self, sf):
         try:
             n = sf.nrows
             return int(n) if isinstance(n, (int, np.integer)) else -1
@@ -443,46 +591,60 @@ class World:
             return -1
 
 
-def entry_name(e, writer, reader):
+def entry_name(e, writer, reader, lib="sfile"):
     """the esutil entry point an event went through (first component of a signature)"""
     op = e["op"]
+    cls = "SFile" if lib == "sfile" else "Recfile"
     if op == "open":
-        return "SFile(mode=%s)" % e["mode"]
+        return "%s(mode=%s)" % (cls, e["mode"])
     if op == "hwrite":
-        return "SFile.write"
+        return cls + ".write"
     if op == "hread":
-        return "SFile.read(same handle)"
+        return cls + ".read(same handle)"
     if op == "hclose":
-        return "SFile.close"
+        return cls + ".close"
     if op in ("write", "append"):
+        if lib != "sfile":
+            return "recfile.write(mode=%s)" % ("r+" if op == "append" else "w")
         w = WRITERS[writer % len(WRITERS)].split("(")[0]
         return w + ("(append=True)" if op == "append" else "")
     if op == "read":
-        return READERS[reader % len(READERS)]
+        return READERS[reader % len(READERS)] if lib == "sfile" else "recfile.read"
     return "read_header"
 
 
-def run_trace(seed, fam, events, npaths=2, writer=0, reader=0, sched="every", headers=HEADERS):
-    """execute a list of abstract events from an empty directory; returns (events issued, events completed)"""
-    w = World(seed, fam, npaths=npaths, writer=writer, reader=reader, headers=headers)
+def run_trace(seed, fam, events, npaths=2, writer=0, reader=0, sched="every", headers=HEADERS, lib="sfile", reuse=True):
+    """execute a list of abstract events from an empty directory; handles still open at the end are closed by
+    explicit hclose events (what they wrote becomes observable).  Returns (events issued, events completed)"""
+    w = World(seed, fam, npaths=npaths, writer=writer, reader=reader, headers=headers, lib=lib, reuse=reuse)
     w.table = TokenTable(seed, fam, tokens_by_base(events))
     kept, out = [], []
     try:
         for i, e in enumerate(events):
+            if lib != "sfile" and e["hdr"] != "none" and e["op"] in ("hwrite", "write", "append"):
+                e = dict(e, hdr="none")                 # a bare record file has no header
             if not w.in_scope(e):
                 continue
+            e = dict(e)
+            e.setdefault("sel", "all")
             kept.append(e)
             out.append(w.execute(e, observe=(sched == "every"), last=(i == len(events) - 1)))
+        for h in sorted(w.handles):
+            e = {"op": "hclose", "h": h, "p": w.hpath[h], "mode": "none", "delim": "none", "chunk": dict(NO_CHUNK),
+                 "hdr": "none", "sel": "all"}
+            kept.append(e)
+            out.append(w.execute(e, observe=True, last=True))
     finally:
         w.close()
     return kept, out
 
 
-TLA_EVENT_FIELDS = ("op", "h", "p", "mode", "delim", "chunk", "hdr", "res", "obs", "rawsame")
+TLA_EVENT_FIELDS = ("op", "h", "p", "mode", "delim", "chunk", "hdr", "sel", "res", "obs", "rawsame")
 
 
 def tla_event(e):
     """strip the fields the trace specification does not read"""
-    out = {k: e[k] for k in TLA_EVENT_FIELDS}
+    out = {k: e[k] for k in TLA_EVENT_FIELDS if k != "sel"}
+    out["sel"] = e.get("sel", "all")
     out["obs"] = [{k: o[k] for k in ("st", "delim", "hdr", "descr", "size", "rows")} for o in e["obs"]]
     return out
